@@ -1,6 +1,7 @@
 package main
 
 import (
+	"sort"
 	"bufio"
 	"fmt"
 	"strings"
@@ -215,14 +216,18 @@ func runCycle(s cycScn) (line string) {
 		var mu sync.Mutex
 		gate := make(chan struct{}) // callbacks of the current cycle block on it, so slots stay taken
 		var batches []string
+		var seen []string // what each watcher finds in the batch it was handed, read once the cycle is over
 		cbCount := 0
 		for i, m := range s.mb {
-			f.addWatcher(wspec{id: i, maxBatch: m}, func(w int, objs []int, atts []uint32) {
+			f.addWatcher(wspec{id: i, maxBatch: m}, func(w int, objs []int, atts []uint32, reread func() []int) {
 				mu.Lock()
 				cbCount++
 				g := gate
 				mu.Unlock()
 				<-g
+				mu.Lock()
+				seen = append(seen, fmt.Sprintf("%d>%s", w, ints(reread())))
+				mu.Unlock()
 			})
 		}
 		f.listen(func(event string, val int, msg string, objs []int) {
@@ -260,6 +265,11 @@ func runCycle(s cycScn) (line string) {
 		gate = make(chan struct{})
 		mu.Unlock()
 		synctest.Wait()
+		mu.Lock()
+		sort.Strings(seen)
+		seen1 := strings.Join(seen, ";")
+		seen = nil
+		mu.Unlock()
 		needsMid := f.needs()
 		if c.limiter != nil {
 			c.limiter.capacity.Store(4294967295)
@@ -274,11 +284,15 @@ func runCycle(s cycScn) (line string) {
 		close(gate)
 		mu.Unlock()
 		synctest.Wait()
+		mu.Lock()
+		sort.Strings(seen)
+		seen2 := strings.Join(seen, ";")
+		mu.Unlock()
 		needs3, infl3 := f.needs(), f.inflight()
 		f.stop()
 		synctest.Wait()
-		res = fmt.Sprintf("b1=%s nb1=%d cb1=%d inbuf1=%d needs1=%d infl1=%d needsmid=%d b2=%s inbuf2=%d needs2=%d needs3=%d infl3=%d",
-			dash(first), nb, cb1, inbuf1, needs1, infl1, needsMid, dash(second), inbuf2, needs2, needs3, infl3)
+		res = fmt.Sprintf("b1=%s nb1=%d cb1=%d inbuf1=%d needs1=%d infl1=%d needsmid=%d b2=%s inbuf2=%d needs2=%d needs3=%d infl3=%d seen1=%s seen2=%s",
+			dash(first), nb, cb1, inbuf1, needs1, infl1, needsMid, dash(second), inbuf2, needs2, needs3, infl3, dash(seen1), dash(seen2))
 	})
 	return s.key() + " | " + res
 }
